@@ -115,7 +115,22 @@ def envOf (j : Json) : R Env := do
     serverVersion := ← strF j "server_version", debug := ← boolF j "debug"
     principal := ← strF j "principal", authDomain := ← strF j "auth_domain", authenticated := ← boolF j "authenticated"
     claims := ← boolF j "claims", requestId := ← strF j "request_id", httpRemote := ← strF j "http_remote"
-    sid := hex32 }
+    sid := hex32
+    cacheHit := ← do
+      let dflt ← match fieldOpt j "hit_default" with
+        | some b => bool b
+        | none => pure true
+      let ex : List (Nat × Option Nat × Bool) ← match fieldOpt j "hits" with
+        | some a => do (← arr a).mapM fun t => do
+            match ← arr t with
+            | [n, p, b] => do
+              let pos : Option Nat ← match p with
+                | .null => pure none
+                | _ => do pure (some (← nat p))
+              pure (← nat n, pos, ← bool b)
+            | _ => throw "hits entry"
+        | none => pure []
+      pure fun n key => ((ex.find? fun t => t.1 == n && t.2.1 == key).map (·.2.2)).getD dflt }
 
 def exnOpt (j : Json) (k : String) : R (Option Exn) :=
   match fieldOpt j k with
